@@ -29,6 +29,17 @@ func C11(c *core.Ctx) {
 	c11Patterns(c)
 	c11NullFree(c)
 	c11Enums(c)
+	c11Bounds(c)
+	// R6: a validator that decides membership of a published closed list looks the value up as given
+	c.Rule("C11-R6", "lookups that decide membership of a published closed list use the value exactly (shared with C18-R5)", 4)
+	sub := core.NewCtx("C18", c.Tier, c.Seed, c.P, c.VerifDir)
+	sub.Quiet = true
+	c18Exact(sub)
+	for _, o := range sub.Obligations() {
+		if o.Rule == "C18-R5" {
+			c.ObAt("C11-R6", o.Key, o.Pos, o.OK, o.Msg)
+		}
+	}
 	c11RegistryEnums(c)
 	c11RegimeType(c)
 	c11SkipPattern(c)
